@@ -33,6 +33,13 @@ pub(crate) struct Root {
     /// Whether we are currently batching signal updates. If this is true, we do not run
     /// `effect_queue` and instead wait until the end of the batch.
     pub batching: Cell<bool>,
+    /// How many calls of `NodeHandle::dispose` / `NodeHandle::dispose_children` are in progress.
+    pub dispose_depth: Cell<usize>,
+    /// The nodes removed by the teardown in progress. Their values, callbacks and context values are
+    /// dropped once the outermost teardown is over: a destructor may use the reactive system (e.g. a
+    /// suspense task guard stored in a signal releases its counter), and whatever that makes re-run
+    /// must not be a node of the scope that is half torn down.
+    pub(crate) disposed_nodes: RefCell<Vec<ReactiveNode>>,
 }
 
 thread_local! {
@@ -62,6 +69,8 @@ impl Root {
             nodes: RefCell::new(SlotMap::default()),
             node_update_queue: RefCell::new(Vec::new()),
             batching: Cell::new(false),
+            dispose_depth: Cell::new(0),
+            disposed_nodes: RefCell::new(Vec::new()),
         };
         let _ref = Box::leak(Box::new(this));
         _ref.reinit();
